@@ -346,11 +346,11 @@ func extractTimeout(headers http.Header, protocol conformancev1.Protocol, feedba
 		}
 		headers.Del(connectTimeoutHeader)
 		intVal, err := strconv.ParseInt(val, 10, 64)
-		if err != nil || intVal < 0 {
+		if err != nil || !isASCIIDigits(val) { // digits only: no sign
 			feedback.Printf("invalid numeric value for %q header: %q", connectTimeoutHeader, val)
 			break
 		}
-		if intVal > 9999999999 { // 10 digit max
+		if len(val) > 10 { // 10 digit max (also when zero-padded)
 			feedback.Printf("invalid numeric value (>10 digits) in %q header: %q", connectTimeoutHeader, val)
 			break
 		}
@@ -376,11 +376,11 @@ func extractTimeout(headers http.Header, protocol conformancev1.Protocol, feedba
 			break
 		}
 		intVal, err := strconv.ParseInt(timeoutStr, 10, 64)
-		if err != nil || intVal < 0 {
+		if err != nil || !isASCIIDigits(timeoutStr) { // digits only: no sign
 			feedback.Printf("invalid numeric value in %q header: %q", grpcTimeoutHeader, val)
 			break
 		}
-		if intVal > 99999999 { // 8 digit max
+		if len(timeoutStr) > 8 { // 8 digit max (also when zero-padded)
 			feedback.Printf("invalid numeric value (>8 digits) in %q header: %q", grpcTimeoutHeader, val)
 			break
 		}
@@ -413,6 +413,18 @@ func extractTimeout(headers http.Header, protocol conformancev1.Protocol, feedba
 		return timeout, true
 	}
 	return 0, false
+}
+
+// isASCIIDigits returns true if s is a non-empty string of ASCII digits. The
+// timeout grammars of the Connect and gRPC protocols allow nothing else, but
+// strconv.ParseInt also accepts a leading sign ("+1", "-0").
+func isASCIIDigits(s string) bool {
+	for i := 0; i < len(s); i++ {
+		if s[i] < '0' || s[i] > '9' {
+			return false
+		}
+	}
+	return s != ""
 }
 
 func contextWithTimeout(ctx context.Context, timeout time.Duration) context.Context {
